@@ -94,7 +94,7 @@ theorem C12_exit_accuracy {est : Nat → Nat} (hest : EstOK est) (n : Nat) (scal
     rw [e, abs_of_nonneg (sq_nonneg _)]
     nlinarith
   have hzero : Dec.zero.value = 0 := by simp [Dec.zero, Dec.value]
-  obtain ⟨r1, r2⟩ := invLoop_exit hest ⟨n, scale⟩ hs p hp fuel Dec.zero _ R hrun hres (Or.inl hzero) h
+  obtain ⟨r1, r2, _⟩ := invLoop_exit hest ⟨n, scale⟩ hs p hp fuel Dec.zero _ R hrun hres (Or.inl hzero) h
   refine ⟨r1, le_trans r2 (le_of_eq ?_)⟩
   unfold invRho
   have hextra : Generated.inverseExtraPrec = 2 := rfl
@@ -121,6 +121,95 @@ theorem C12_result_is_rounded_iterate (est : Nat → Nat) (n : Nat) (scale : Int
   simp only
   generalize invLoop est ⟨n, scale⟩ p fuel Dec.zero (invNext ⟨n, scale⟩ g) = o
   cases o <;> rfl
+
+/-- **accuracy whenever it terminates** (the headline bound, partial correctness): for every `x > 0`,
+    precision `p ≥ 1`, rounding mode, digit estimate satisfying `EstOK` and initial guess within 94% of
+    `1/x`, whatever `impl_inverse` returns differs from `1/x` by strictly less than one unit of the
+    result's last digit (which is the `p`-th significant digit, or finer when the rounding carried
+    into a new leading digit).  Ingredients: the exit iterate is within `0.61` units of its own
+    (`p+2`-th) digit of `1/x` (`exit_sharp`), and the final rounding to `p` digits moves it by at most
+    `1 − 10^-k` units, `k ≥ 2` dropped digits. -/
+theorem C12_accuracy_on_termination {est : Nat → Nat} (hest : EstOK est) (n : Nat) (scale : Int) (p : Nat) (m : Mode)
+    (g : Dec) (fuel : Nat) (res : Dec) (hn : 0 < n) (hp : 1 ≤ p) (hg : 0 < g.value)
+    (hguess : |1 - (Dec.mk n scale).value * g.value| ≤ 94 / 100)
+    (h : implInverse est n scale p m g fuel = some res) :
+    |res.value - 1 / (Dec.mk n scale).value| < (10 : ℚ) ^ (-res.scale) := by
+  rw [C12_result_is_rounded_iterate] at h
+  cases hloop : invLoop est ⟨n, scale⟩ p fuel Dec.zero (invNext ⟨n, scale⟩ g) with
+  | none => rw [hloop] at h; simp at h
+  | some R =>
+    rw [hloop] at h
+    simp only [Option.bind_some] at h
+    have hs : 0 < (Dec.mk n scale).value := by
+      rw [value_pos_iff]; simp; omega
+    -- the exit iterate
+    have hv := invNext_value ⟨n, scale⟩ g
+    obtain ⟨g1, g2⟩ := abs_le.mp hguess
+    have hrun : 0 < (invNext ⟨n, scale⟩ g).value := by
+      rw [hv]; apply mul_pos hg; linarith
+    have hres : |1 - (Dec.mk n scale).value * (invNext ⟨n, scale⟩ g).value| ≤ 9 / 10 := by
+      rw [hv]
+      have e : 1 - (Dec.mk n scale).value * (g.value * (2 - (Dec.mk n scale).value * g.value))
+          = (1 - (Dec.mk n scale).value * g.value) ^ 2 := by ring
+      rw [e, abs_of_nonneg (sq_nonneg _)]
+      nlinarith
+    have hzero : Dec.zero.value = 0 := by simp [Dec.zero, Dec.value]
+    obtain ⟨r1, r2, b, hb, heb, hRb⟩ := invLoop_exit hest ⟨n, scale⟩ hs p hp fuel Dec.zero _ R hrun hres (Or.inl hzero) hloop
+    have hsharp := exit_sharp hest ⟨n, scale⟩ hs p hp b hb heb (by rw [← hRb]; exact r2)
+    rw [← hRb] at hsharp
+    -- digits of the exit iterate
+    have hextra : Generated.inverseExtraPrec = 2 := rfl
+    have hRint : 0 < R.int := (value_pos_iff R).mp r1
+    have hdv := invNext_value ⟨n, scale⟩ b
+    obtain ⟨e1, e2⟩ := abs_le.mp heb
+    obtain ⟨hρ0, hρ⟩ := invRho_small p hp
+    have hdpos : 0 < (invNext ⟨n, scale⟩ b).value := by rw [hdv]; apply mul_pos hb; linarith
+    have hlow := withPrec_int_lower hest (invNext ⟨n, scale⟩ b) (p + Generated.inverseExtraPrec) (by omega) ((value_pos_iff _).mp hdpos)
+    rw [← hRb] at hlow
+    have hnd : p + 2 ≤ numDigits R.int.natAbs := by
+      have h1 : 10 ^ (p + 2 - 1) ≤ R.int.natAbs := by
+        rw [hextra] at hlow
+        have : (R.int.natAbs : Int) = R.int := by omega
+        have h2 : ((10 ^ (p + 2 - 1) : Nat) : Int) ≤ (R.int.natAbs : Int) := by rw [this]; exact_mod_cast hlow
+        exact_mod_cast h2
+      have := numDigits_mono h1
+      rw [numDigits_pow] at this
+      omega
+    -- the final rounding
+    have hdig : R.digits > p := by unfold Dec.digits; omega
+    rw [if_pos hdig] at h
+    have hspec := withPrecisionRound_spec R p m res h
+    obtain ⟨hsc, herr⟩ := roundToPrec_abs_error R p m hRint (by omega)
+    rw [← hspec] at hsc herr
+    obtain ⟨k, hk⟩ : ∃ k : Nat, numDigits R.int.natAbs - p = k ∧ 2 ≤ k := ⟨numDigits R.int.natAbs - p, rfl, by omega⟩
+    rw [hk.1] at hsc herr
+    -- 10^(-R.scale) = 10^-k · 10^(-res.scale)
+    have hu : (0 : ℚ) < (10 : ℚ) ^ (-res.scale) := zpow_pos (by norm_num) _
+    have hRs : (10 : ℚ) ^ (-R.scale) = (10 : ℚ) ^ (-(k : Int)) * (10 : ℚ) ^ (-res.scale) := by
+      rw [← zpow_add₀ (by norm_num : (10 : ℚ) ≠ 0)]; congr 1; rw [hsc]; ring
+    rw [hRs] at hsharp
+    have hkpos : (0 : ℚ) < (10 : ℚ) ^ (-(k : Int)) := zpow_pos (by norm_num) _
+    -- triangle
+    have htri : |res.value - 1 / (Dec.mk n scale).value| ≤ |res.value - R.value| + |R.value - 1 / (Dec.mk n scale).value| := by
+      have := abs_add_le (res.value - R.value) (R.value - 1 / (Dec.mk n scale).value)
+      have e : res.value - R.value + (R.value - 1 / (Dec.mk n scale).value) = res.value - 1 / (Dec.mk n scale).value := by ring
+      rw [e] at this; exact this
+    have hfin : (1 - (10 : ℚ) ^ (-(k : Int))) * (10 : ℚ) ^ (-res.scale) + 61 / 100 * ((10 : ℚ) ^ (-(k : Int)) * (10 : ℚ) ^ (-res.scale))
+        < (10 : ℚ) ^ (-res.scale) := by
+      have : (1 - (10 : ℚ) ^ (-(k : Int))) * (10 : ℚ) ^ (-res.scale) + 61 / 100 * ((10 : ℚ) ^ (-(k : Int)) * (10 : ℚ) ^ (-res.scale))
+          = (10 : ℚ) ^ (-res.scale) - 39 / 100 * ((10 : ℚ) ^ (-(k : Int)) * (10 : ℚ) ^ (-res.scale)) := by ring
+      rw [this]
+      have : 0 < 39 / 100 * ((10 : ℚ) ^ (-(k : Int)) * (10 : ℚ) ^ (-res.scale)) := by positivity
+      linarith
+    linarith
+
+/-- the same for the code's own f64 digit estimate (up to 2^40 bits) -/
+theorem C12_accuracy_on_termination_code (n : Nat) (scale : Int) (p : Nat) (m : Mode)
+    (g : Dec) (fuel : Nat) (res : Dec) (hn : 0 < n) (hp : 1 ≤ p) (hg : 0 < g.value)
+    (hguess : |1 - (Dec.mk n scale).value * g.value| ≤ 94 / 100)
+    (h : implInverse estGuard n scale p m g fuel = some res) :
+    |res.value - 1 / (Dec.mk n scale).value| < (10 : ℚ) ^ (-res.scale) :=
+  C12_accuracy_on_termination estGuard_ok n scale p m g fuel res hn hp hg hguess h
 
 /-- the full statement, **not proved**: termination for every input and the one-unit bound.
     (Kept as a visible, type-checked proposition.) -/
